@@ -3,6 +3,7 @@
 package svg
 
 import (
+	"bytes"
 	"fmt"
 	"math"
 	"runtime/debug"
@@ -11,6 +12,7 @@ import (
 	"github.com/benoitkugler/webrender/backend"
 	"github.com/benoitkugler/webrender/css/parser"
 	"github.com/benoitkugler/webrender/matrix"
+	"github.com/benoitkugler/webrender/utils"
 )
 
 // Contracts for the deductive verifier in /verif (build tag verif: not compiled
@@ -589,8 +591,38 @@ func vRefCycles() (int, []string) {
 			}
 		}
 	}
+	// <use> across files: a.svg and b.svg each hold one <use> whose target is nothing, the file itself, the
+	// other file, an element of either file or a missing file; the fetcher serves both files
+	uses := []string{"", "a.svg", "b.svg", "#r", "a.svg#r", "b.svg#r", "missing.svg"}
+	file := func(href string) string {
+		return fmt.Sprintf(`<svg xmlns="http://www.w3.org/2000/svg" width="10" height="10"><rect id="r" width="1" height="1"/><use href="%s"/></svg>`, href)
+	}
+	for _, ha := range uses {
+		for _, hb := range uses {
+			files := map[string]string{"http://x/a.svg": file(ha), "http://x/b.svg": file(hb)}
+			fetch := func(url string) (utils.RemoteRessource, error) {
+				if c, ok := files[url]; ok {
+					return utils.RemoteRessource{Content: bytes.NewReader([]byte(c)), MimeType: "image/svg+xml"}, nil
+				}
+				return utils.RemoteRessource{}, fmt.Errorf("not found: %s", url)
+			}
+			n++
+			name := fmt.Sprintf("use a->%q b->%q", ha, hb)
+			func() {
+				defer func() {
+					if r := recover(); r != nil && len(fails) < 5 {
+						fails = append(fails, fmt.Sprintf("%s: panic: %v", name, r))
+					}
+				}()
+				// a recursive <use> is reported as an error by Parse: that is a return, not a crash
+				if img, err := Parse(strings.NewReader(files["http://x/a.svg"]), "http://x/a.svg", nil, fetch); err == nil {
+					img.Draw(vCanvas{}, 100, 100, nil)
+				}
+			}()
+		}
+	}
 	return n, fails
 }
 
-//@ bounded vRefCycles svg.Parse and Draw on every reference graph over two markers, two clip paths and two masks (16 graphs each incl. self loops and two-cycles): returns without panicking
+//@ bounded vRefCycles svg.Parse and Draw on every reference graph over two markers, two clip paths and two masks (16 graphs each incl. self loops and two-cycles), and on every pair of files whose <use> points to nothing, itself, the other file, an element of either or a missing file (49 graphs): returns without panicking or exhausting the stack
 //@   props C18 C01
